@@ -408,12 +408,15 @@ class POXCore (EventMixin):
       vwarn("Support for Python 3 is experimental.")
 
     self.starting_up = False
+    # Hold a deferral of our own while GoingUp is delivered, so that a
+    # handler releasing its deferral right away can't start stage 2 in the
+    # middle of the delivery (and then once more below).
+    go_on = self._get_go_up_deferral()
     self.raiseEvent(GoingUpEvent())
 
     self._add_signal_handlers()
 
-    if not self._go_up_deferrals:
-      self._goUp_stage2()
+    go_on()
 
   def _get_go_up_deferral (self):
     """
